@@ -35,6 +35,9 @@ ASSUMPTIONS = [
     "every planted construct (and every call whose stack-trace entry is "
     "checked) is kept on one line or begins with `name (` on one line, so "
     "the oracle does not depend on which token of the construct is blamed",
+    "text handed to eval() or s() at run time is a program of its own: a "
+    "fault inside it must carry a file and a line, but the line counts "
+    "within that text (the statement speaks of the program's layout)",
 ]
 
 NAME = "prog.ckl"
@@ -414,6 +417,9 @@ def prop(case):
                          case["syntax"])
     if k == "callpos":
         return call_position_prop(case["src"])[0]
+    if k == "formpos":
+        return form_position_prop(case["form"], case["args"], case["blanks"],
+                                  case["wrapped"])[0]
     if k == "module":
         return module_prop(case["text"], case["planted"], case["in_function"],
                            style=case.get("style", "plain"))
@@ -573,6 +579,196 @@ def part_call_positions(part, n):
     part.hyp(tapes(64), body, n, shrink=False)
 
 
+# ------------------------------------------------------- forms and positions
+
+FORM_NAME = "gen.ckl"
+FORM_POS_RE = re.compile(r"(gen\.ckl|mod:[^:\s]+):(\d+):(-?\d+)\Z")
+ENTRY_RE = re.compile(r"(gen\.ckl|mod:[^:\s]+):(\d+):(-?\d+)\s*\Z")
+
+
+def _has_code(src):
+    """Does the source text of a value hold program code of its own (a lambda
+    or a hook), whose faults carry the line of that code?"""
+    return "fn(" in src or "_str_" in src
+
+
+def form_program(form, args, blanks, wrapped):
+    """Bind the arguments on lines of their own, then put the form on a line
+    of its own, at top level or as the last statement of a function.  Returns
+    (text, def line ranges, line of the form, line of the call or None)."""
+    from vf.checks import c13
+    lines = []
+    ranges = []
+    cur = 1
+    for k, a in enumerate(args):
+        stmt = f"def p{k} = {a};"
+        n = stmt.count("\n")
+        ranges.append((cur, cur + n))
+        lines.append(stmt)
+        cur += n + 1
+    body = c13.form_src(form, len(args))
+    for _ in range(blanks):
+        lines.append("")
+        cur += 1
+    if not wrapped:
+        form_line = cur
+        lines.append(body)
+        return "\n".join(lines), ranges, form_line, None
+    if wrapped == "bare":       # the form is the whole body, no block
+        lines.append("def fq()")
+        form_line = cur + 1
+        lines.append("  " + body + ";")
+        lines.append("")
+        lines.append("fq()")
+        return "\n".join(lines), ranges, form_line, cur + 3
+    lines.append("def fq() do")
+    lines.append("  1;")
+    form_line = cur + 2
+    lines.append("  " + body)
+    lines.append("end;")
+    lines.append("")
+    lines.append("fq()")
+    return "\n".join(lines), ranges, form_line, cur + 5
+
+
+def form_position_prop(form, args, blanks, wrapped):
+    """Whatever runtime error a form raises names the line of the form (or of
+    the code inside one of its operands), and every stack-trace entry has a
+    file and a line; inside a function the error is not moved to the call."""
+    text, ranges, form_line, call_line = form_program(form, args, blanks,
+                                                      wrapped)
+    defs_only = "\n".join(text.split("\n")[:ranges[-1][1]]) if ranges else ""
+    if defs_only:
+        pre = cklrun.run(defs_only, budget=5, name=FORM_NAME, session=False)
+        if pre[0] != "value":
+            return None, "operand-fails"
+    out = cklrun.run(text, budget=5, name=FORM_NAME, session=False)
+    if out[0] != "error":
+        return None, out[0]
+    pos = out[3] or ""
+    m = FORM_POS_RE.match(pos)
+    if not m or int(m.group(2)) < 1:
+        return Finding("C20|runtime-error-without-file-or-line|form",
+                       f"{text!r} raised {out[2]!r} with position {pos!r}"), \
+            "error"
+    code = any(_has_code(a) for a in args)
+    # text handed to eval / s / sprintf is a program of its own: its faults
+    # carry the line within that text (ASSUMPTIONS)
+    text_form = re.search(r"\b(eval|s)\(", form) is not None
+    if m.group(1) == FORM_NAME and not text_form:
+        line = int(m.group(2))
+        ok = line == form_line or (
+            code and any(lo <= line <= hi for lo, hi in ranges))
+        if not ok:
+            return Finding("C20|runtime-error-line|form",
+                           f"{text!r} raised {out[2]!r} at {pos!r}; the form "
+                           f"is on line {form_line}"
+                           + (f", line {call_line} is the call of the "
+                              f"enclosing function" if call_line else "")), \
+                "error"
+    st = getattr(out[5], "stacktrace", [])
+    for entry in st:
+        if not ENTRY_RE.search(entry):
+            return Finding("C20|stacktrace-entry-without-position|form",
+                           f"{text!r}: entry {entry!r} of {st!r}"), "error"
+    if call_line is not None and m.group(1) == FORM_NAME:
+        mine = [e for e in st if e.startswith("fq(")]
+        if not mine:
+            return Finding("C20|stacktrace-missing-entry|form",
+                           f"{text!r}: {st!r} has no entry for fq()"), "error"
+        m2 = ENTRY_RE.search(mine[-1])
+        if int(m2.group(2)) != call_line:
+            return Finding("C20|stacktrace-line|form",
+                           f"{text!r}: entry {mine[-1]!r}, the call is on "
+                           f"line {call_line}"), "error"
+    return None, "error"
+
+
+# forms that are not single statements of one line, define names the wrapper
+# uses, or leave the function early on purpose
+def _position_forms():
+    from vf.checks import c13
+    return [f for f in c13.FORMS if "\n" not in f
+            and not f.startswith(("compare = ", "identity = ",
+                                  "[compare, identity] = "))]
+
+
+HOOK_OBJECTS = ["<*_str_ = s*>", "<*_str_ = sorted*>", "<*_str_ = eval*>",
+                "<*_str_ = fn(self, x) 'a'*>", "<*_str_ = fn(self) zz_undefined*>",
+                "<*_str_ = fn(self) 1 / 0*>", "stdout", "str_output()"]
+# forms in which a value is rendered or converted by a node, not by a call
+NODE_FORMS = [
+    "<<<1 => 2>>>[A]", "<<<1 => 2>>>[A] = 1", "<<<1 => 2>>>[A] += 1",
+    "<*a = 1*>[A]", "<*a = 1*>[A] = 1", "<*a = 1*>[A] += 1", "[1, 2][A]",
+    "'abc'[A]", "<<1>>[A]", "<*a = 1*>->zz(A)", "A->zz", "A->zz = 1",
+    "A->zz(1)", "[1, A] < [1, 2]", "<<A, 1>>", "<<<A => 1, 1 => 2>>>",
+    "[x for x in <<A, 1>>]", "for x in <<A, 1>> do x end",
+    "def checkerlang_module_path = [A]; require zz_nomodule",
+    "error A", "A + 'x'", "'x' + A", "A < 1", "1 < A", "A in [1, 2]",
+    "sorted([1, A])", "string(A)",
+    "do error A catch A 1 end", "if A then 1", "while A do break end",
+    "[1, 2][A to 1]", "def [x, y] = A; x", "for [x, y] in [A] do x end",
+    "(fn(a) a)(...A)", "[...A]", "not A", "- A", "A and TRUE", "TRUE or A",
+]
+
+
+def part_node_positions(part):
+    """Every node-level form over operands that cannot be rendered or
+    converted, at top level, in a function block and as a bare function body."""
+    for form in NODE_FORMS:
+        for obj in HOOK_OBJECTS:
+            for wrapped in (False, True, "bare"):
+                if wrapped == "bare" and ";" in form:
+                    continue
+                for blanks in (0, 2):
+                    part.count()
+                    fnd, kind = form_position_prop(form, [obj], blanks,
+                                                   wrapped)
+                    part.cls("node-position:" + kind,
+                             f"{form}  with  {obj}"
+                             if part.evaluations % 60 == 0 else None)
+                    if kind == "error":
+                        part.nontriv((form, obj, wrapped, blanks))
+                    if fnd:
+                        fnd.signature += "|" + form
+                        part.collect(fnd, {"kind": "formpos", "form": form,
+                                           "args": [obj], "blanks": blanks,
+                                           "wrapped": wrapped})
+    part.exhaustive = True
+
+
+def part_form_positions(part, n):
+    """Every operator and statement form of the C13 tables over generated
+    operands, at top level and inside a function: errors raised by node
+    evaluation (not by a planted fault, not by a call) carry a position."""
+    from vf.checks import c13
+    forms = _position_forms()
+
+    def body(tape):
+        ch = TapeChooser(tape)
+        form = ch.choice(forms)
+        args = [c13.gen_arg(ch) for _ in range(c13.form_arity(form))]
+        blanks = ch.int(0, 3)
+        wrapped = ch.choice([False, True, "bare"])
+        if wrapped == "bare" and (";" in form or form.startswith(
+                ("return ", "def "))):
+            wrapped = True
+        part.count()
+        fnd, kind = form_position_prop(form, args, blanks, wrapped)
+        part.cls("form-position:" + kind + (":in-function" if wrapped else "")
+                 + (":bare" if wrapped == "bare" else ""),
+                 f"{form}  with  {', '.join(args)}"
+                 if part.evaluations % 50 == 0 else None)
+        if kind == "error":
+            part.nontriv((form, tuple(args), wrapped))
+        if fnd:
+            fnd.signature += "|" + form
+            part.collect(fnd, {"kind": "formpos", "form": form, "args": args,
+                               "blanks": blanks, "wrapped": wrapped})
+        return None
+    part.hyp(tapes(64), body, n, shrink=False)
+
+
 def part_modules(part, n):
     def body(tape):
         ch = TapeChooser(tape)
@@ -612,6 +808,9 @@ def parts(tier, seed):
         ps += [(f"modules-{i}", part_modules, {"n": 60}) for i in range(4)]
         ps += [(f"callpos-{i}", part_call_positions, {"n": 4000})
                for i in range(4)]
+        ps += [(f"formpos-{i}", part_form_positions, {"n": 4000})
+               for i in range(4)]
+        ps += [("nodepos", part_node_positions, {})]
     else:
         ps = [(f"tokens-{i}", part_tokens, {"n": 80000}) for i in range(4)]
         ps += [("matrix", part_token_matrix, {})]
@@ -620,4 +819,7 @@ def parts(tier, seed):
         ps += [(f"modules-{i}", part_modules, {"n": 400}) for i in range(4)]
         ps += [(f"callpos-{i}", part_call_positions, {"n": 80000})
                for i in range(6)]
+        ps += [(f"formpos-{i}", part_form_positions, {"n": 80000})
+               for i in range(6)]
+        ps += [("nodepos", part_node_positions, {})]
     return ps
